@@ -51,10 +51,10 @@ def lattice(param, tier):
         grid = logspace(1e-4, 1.0, 9 if q else 25)
         exact = []
         for n in NS:
-            for m in (1.0, 1 - 1e-12, 1 + 1e-12, 1 - 1e-9, 1 + 1e-9):
+            for m in (1.0, 1 - 1e-12, 1 + 1e-12, 1 - 1e-9, 1 + 1e-9, 1 - 3e-5, 1 + 3e-5, 1 - 1e-3, 1 + 1e-3):
                 exact.append(m / n)
         if q:
-            exact = [m / n for n in (1, 2, 3, 10, 100) for m in (1.0, 1 - 1e-12, 1 + 1e-12, 1 - 1e-9, 1 + 1e-9)]
+            exact = [m / n for n in (1, 2, 3, 10, 100) for m in (1.0, 1 - 1e-12, 1 + 1e-12, 1 - 1e-9, 1 + 1e-9, 1 - 3e-5, 1 + 3e-5, 1 - 1e-3, 1 + 1e-3)]
         return sorted(set(grid + exact + [0.3, 0.07, 0.6, 1.5]))
     if param == "total_expansion":
         grid = logspace(1e-3, 1e3, 7 if q else 19)
